@@ -804,6 +804,186 @@ Definition run_c12_live (args : list sx) : sx :=
     ret (L (map (fun ro => sx_live p (fst ro) (snd ro)) (combine rs (run_server Z.quot [] p rs))))
   | _ => None end).
 
+(* ---------- the runner's side: server_runner.go runTestCasesForServer ----------
+   For every test case of the batch that shares one server instance the runner clones the request, appends
+   the test-case-name header and - for a reference server - the x-expect-* headers, to the request headers and
+   to the headers of a raw request if the case has one, and hands the request to the client.  The headers are
+   built inside the loop from the request at hand; the only facts taken from the instance are whether the
+   server's response carried a certificate and whether client credentials are in use. *)
+Definition header := (bytes * list bytes)%type.
+Inductive stream_type := StUnary | StClientStream | StServerStream | StHalfDuplex | StFullDuplex.
+
+Record rcase := {
+  rc_name : bytes;
+  rc_version : version; rc_protocol : protocol;       (* req.HttpVersion, req.Protocol *)
+  rc_codec : codec; rc_compression : compression;     (* req.Codec, req.Compression *)
+  rc_stream : stream_type; rc_get : bool;             (* req.StreamType, req.UseGetHttpMethod *)
+  rc_headers : list header;                           (* the test's own request headers *)
+  rc_raw : option (list header) }.                    (* headers of the raw request, if any *)
+
+Record rinst := {
+  ri_ref : bool;          (* isReferenceServer *)
+  ri_use_tls : bool;      (* meta.useTLS *)
+  ri_use_certs : bool;    (* meta.useTLSClientCerts *)
+  ri_pem : bool;          (* len(resp.PemCert) > 0 *)
+  ri_creds : bool }.      (* the caller passed client credentials *)
+
+Record sent := { s_name : bytes; s_headers : list header; s_raw : option (list header) }.
+
+Definition h_test_name := lit "x-test-case-name".
+Definition h_version := lit "x-expect-http-version".
+Definition h_method := lit "x-expect-http-method".
+Definition h_protocol := lit "x-expect-protocol".
+Definition h_codec := lit "x-expect-codec".
+Definition h_compression := lit "x-expect-compression".
+Definition h_tls := lit "x-expect-tls".
+Definition h_cert := lit "x-expect-client-cert".
+
+Definition name_header (c : rcase) : header := (h_test_name, [rc_name c]).
+
+(* clientCreds is dropped unless the instance uses client certificates *)
+Definition creds_in_use (i : rinst) : bool := ri_creds i && ri_use_certs i.
+
+Definition expectation_headers (i : rinst) (c : rcase) : list header :=
+  [ (h_version, [dec1 (version_num (rc_version c))]);
+    (h_method, [if rc_get c then m_get else m_post]);
+    (h_protocol, [dec1 (protocol_num (rc_protocol c))]);
+    (h_codec, [dec1 (codec_num (rc_codec c))]);
+    (h_compression, [dec1 (compression_num (rc_compression c))]);
+    (h_tls, [if ri_pem i then lit "true" else lit "false"]) ]
+  ++ (if creds_in_use i then [(h_cert, [c12_client_cert_name])] else []).
+
+Definition added_headers (i : rinst) (c : rcase) : list header :=
+  name_header c :: (if ri_ref i then expectation_headers i c else []).
+
+Definition send_one (i : rinst) (c : rcase) : sent :=
+  {| s_name := rc_name c;
+     s_headers := rc_headers c ++ added_headers i c;
+     s_raw := option_map (fun h => h ++ added_headers i c) (rc_raw c) |}.
+
+(* the loop: cases in order, nothing carried from one iteration to the next but the list of what was sent *)
+Fixpoint batch_loop (i : rinst) (cs : list rcase) (acc : list sent) : list sent :=
+  match cs with
+  | [] => rev acc
+  | c :: cs' => batch_loop i cs' (send_one i c :: acc)
+  end.
+
+(* a TLS instance whose server response names no certificate: nothing is sent *)
+Definition starts (i : rinst) : bool := negb (ri_use_tls i) || ri_pem i.
+Definition run_batch (i : rinst) (cs : list rcase) : list sent :=
+  if starts i then batch_loop i cs [] else [].
+
+(* the other way to write the loop (seeded C12-19): the expectation headers are built when the first case is
+   sent and reused, only the method being refreshed.  Not what the code does; kept to be refuted. *)
+Definition refresh_method (c : rcase) (hs : list header) : list header :=
+  map (fun h => if bytes_eqb (fst h) h_method then (h_method, [if rc_get c then m_get else m_post]) else h) hs.
+Fixpoint batch_loop_shared (i : rinst) (cs : list rcase) (cache : option (list header)) (acc : list sent) : list sent :=
+  match cs with
+  | [] => rev acc
+  | c :: cs' =>
+    let hs := match cache with Some hs => hs | None => expectation_headers i c end in
+    let extra := name_header c :: (if ri_ref i then refresh_method c hs else []) in
+    batch_loop_shared i cs' (Some hs)
+      ({| s_name := rc_name c; s_headers := rc_headers c ++ extra;
+          s_raw := option_map (fun h => h ++ extra) (rc_raw c) |} :: acc)
+  end.
+
+(* what a client does with the request headers it is handed: they go on the wire; header names are
+   case-insensitive there, the values of equally named headers are concatenated in order.  Of these only the
+   eight the checks read are part of the request record. *)
+Definition values_of (n : bytes) (hs : list header) : list bytes :=
+  flat_map (fun h => if bytes_eqb (lower (fst h)) n then snd h else []) hs.
+Definition put_headers (hs : list header) (r : request) : request :=
+  {| proto_major := proto_major r; method := method r; content_type := content_type r;
+     grpc_encoding := grpc_encoding r; connect_content_encoding := connect_content_encoding r;
+     content_encoding := content_encoding r; te := te r; connect_timeout := connect_timeout r;
+     grpc_timeout := grpc_timeout r;
+     x_name := values_of h_test_name hs;
+     x_version := values_of h_version hs;
+     x_method := values_of h_method hs;
+     x_protocol := values_of h_protocol hs;
+     x_codec := values_of h_codec hs;
+     x_compression := values_of h_compression hs;
+     x_tls := values_of h_tls hs;
+     x_cert := values_of h_cert hs;
+     q_encoding := q_encoding r; q_compression := q_compression r; body_empty := body_empty r;
+     tls := tls r; trailer_keys := trailer_keys r |}.
+
+(* the wire shape the reference client uses for a case, and the procedure it calls *)
+Definition case_shape (c : rcase) : shape :=
+  match rc_protocol c with
+  | PConnect => match rc_stream c with
+                | StUnary => if rc_get c then ConnectGet else ConnectUnary
+                | _ => ConnectStream
+                end
+  | PGrpc => GrpcPost
+  | PGrpcWeb => GrpcWebPost
+  end.
+Definition case_procedure (c : rcase) : procedure :=
+  match rc_stream c with
+  | StUnary => if rc_get c then ProcIdempotentUnary else ProcUnary
+  | StClientStream => ProcClientStream
+  | StServerStream => ProcServerStream
+  | StHalfDuplex | StFullDuplex => ProcBidiStream
+  end.
+(* TLS as the connection will be: a certificate announced by the server, client credentials in use *)
+Definition inst_tls (i : rinst) : tlsmode :=
+  if ri_pem i then (if creds_in_use i then TlsCert else Tls) else Plain.
+Definition client_rendering (i : rinst) (c : rcase) : actual :=
+  {| c_version := rc_version c; c_shape := case_shape c; c_codec := rc_codec c;
+     c_compression := rc_compression c; c_tls := inst_tls i |}.
+
+(* decoding *)
+Definition un_enum {A} (l : list A) (s : sx) : option A :=
+  match s with I z => if (1 <=? z) then nth_error l (Z.to_nat (z - 1)) else None | _ => None end.
+Definition un_stream (s : sx) : option stream_type :=
+  un_enum [StUnary; StClientStream; StServerStream; StHalfDuplex; StFullDuplex] s.
+Definition un_header (s : sx) : option header :=
+  match s with L [B n; vs] => do vs <- un_bl vs; ret (n, vs) | _ => None end.
+Definition un_rcase (s : sx) : option rcase :=
+  match s with
+  | L [B name; v; p; c; z; st; g; hs; raw] =>
+    do v <- un_enum all_versions v; do p <- un_enum all_protocols p; do c <- un_enum all_codecs c;
+    do z <- un_enum all_compressions z; do st <- un_stream st; do g <- un_bool g;
+    do hs <- un_listof un_header hs; do raw <- un_opt (un_listof un_header) raw;
+    ret {| rc_name := name; rc_version := v; rc_protocol := p; rc_codec := c; rc_compression := z;
+           rc_stream := st; rc_get := g; rc_headers := hs; rc_raw := raw |}
+  | _ => None
+  end.
+Definition un_rinst (s : sx) : option rinst :=
+  match s with
+  | L [r; t; cc; pem; cr] =>
+    do r <- un_bool r; do t <- un_bool t; do cc <- un_bool cc; do pem <- un_bool pem; do cr <- un_bool cr;
+    ret {| ri_ref := r; ri_use_tls := t; ri_use_certs := cc; ri_pem := pem; ri_creds := cr |}
+  | _ => None
+  end.
+Definition sx_header (h : header) : sx := L [B (fst h); sx_bl (snd h)].
+Definition sx_sent (s : sent) : sx :=
+  L [B (s_name s); L (map sx_header (s_headers s)); sx_opt (fun hs => L (map sx_header hs)) (s_raw s)].
+
+(* c12.runner: instance (case ...) -> per request handed to the client, in order: test name, request headers,
+   raw request headers *)
+Definition run_c12_runner (args : list sx) : sx :=
+  or_bad (match args with
+  | [i; cs] => do i <- un_rinst i; do cs <- un_listof un_rcase cs; ret (L (map sx_sent (run_batch i cs)))
+  | _ => None end).
+
+(* c12.runlive: the same batch through the real reference client to the real reference server: per case the
+   x-expect-* headers it was sent with and whether the server wrote feedback about it (the case's own request
+   headers are not part of the observation: the live harness supplies a runnable request of its own) *)
+Definition is_expect_header (h : header) : bool := has_prefix (lit "x-") (fst h).
+Definition run_c12_runlive (args : list sx) : sx :=
+  or_bad (match args with
+  | [i; cs] =>
+    do i <- un_rinst i; do cs <- un_listof un_rcase cs;
+    ret (L (map (fun cs' =>
+           let c := fst cs' in let s := snd cs' in
+           L [ B (s_name s); L (map sx_header (filter is_expect_header (s_headers s)));
+               sx_bool (negb (is_nil (feedback_of (snd (server Z.quot [] (case_procedure c)
+                                 (put_headers (s_headers s) (render (client_rendering i c)))))))) ])
+         (combine cs (run_batch i cs))))
+  | _ => None end).
+
 Definition c12_table : list (bytes * (list sx -> sx)) :=
   [ (lit "c12.seq", run_c12_seq);
     (lit "c12.matrix", run_c12_matrix);
@@ -811,4 +991,6 @@ Definition c12_table : list (bytes * (list sx -> sx)) :=
     (lit "c12.timeouts", run_c12_timeouts);
     (lit "c12.wire", run_c12_wire);
     (lit "c12.events", run_c12_events);
-    (lit "c12.live", run_c12_live) ].
+    (lit "c12.live", run_c12_live);
+    (lit "c12.runner", run_c12_runner);
+    (lit "c12.runlive", run_c12_runlive) ].
